@@ -112,4 +112,14 @@ def expect (k : Kernel) (pid : Nat) (st : PState) : Req → Verdict
       else .unconstrained
     | _ => .promised (.exc .valueError) k                             -- not a pair
 
+/-- The same for a call whose arguments are Python objects. The statement speaks about values — an
+    I/O class IS one of the `IOPRIO_CLASS_*` constants (enum members), a CPU list, a pair of limits —
+    so an int-like scalar counts as its value and a tuple / list / set / range as its elements. It
+    names `cpu_affinity([])`, the empty *list*: about an exhausted iterator nothing is said; whether
+    an iterator that would yield two ints is "a pair" is not said either. -/
+def expectPy (k : Kernel) (pid : Nat) (st : PState) : PyReq → Verdict
+  | .cpuAffinity (some (.iterator, [])) => .unconstrained
+  | .rlimit _ (some (.iterator, _)) => .unconstrained
+  | r => expect k pid st r.erase
+
 end Psutil.C18.Spec
